@@ -154,9 +154,12 @@ def run(c, chk):
                              % (sym.render(e.args[2]), sym.render(e.args[3])))
                     break
                 # the opening line and the closing brace are preceded by cfg_indent(fp, indent)
-                before = [x for x in ev[:i] if x.kind == 'call' and x.name in ('cfg_indent', 'fprintf')]
+                before = [x for x in ev[:i] if x.kind == 'call' and x.name in ('cfg_indent', 'fprintf', 'cfg_print_quoted')]
+                # the opening line: the last cfg_indent() before the body uses the current depth and output follows it
+                li = max([k for k, x in enumerate(before) if x.name == 'cfg_indent'] or [-1])
+                ok_open_line = li >= 0 and before[li].args[1] == ('p', 'indent') and li < len(before) - 1
                 after = [x for x in ev[i + 1:] if x.kind == 'call' and x.name in ('cfg_indent', 'fprintf')]
-                ok_open = len(before) >= 2 and before[-2].name == 'cfg_indent' and before[-2].args[1] == ('p', 'indent') and before[-1].name == 'fprintf'
+                ok_open = ok_open_line
                 ok_close = len(after) >= 2 and after[0].name == 'cfg_indent' and after[0].args[1] == ('p', 'indent') and after[1].name == 'fprintf' \
                     and after[1].args[1] == ('str', '}\n')
                 if not (ok_open and ok_close):
